@@ -251,7 +251,7 @@ func e1ModeFor(prop string) E1Mode {
 	case "C07":
 		m.MaxRPCs, m.MaxTasks, m.Duplex, m.CancelP, m.Misbehave, m.SmallNet, m.CloserP = 4, 3, 0.6, 0.4, 0.4, 0.6, 0.5
 	case "C10":
-		m.MaxRPCs, m.ErrP, m.UnknownP, m.Misbehave, m.SmallNet, m.ServeCancelP, m.Duplex = 4, 0.7, 0.1, 0.25, 0.3, 0.1, 0.2
+		m.MaxRPCs, m.ErrP, m.UnknownP, m.Misbehave, m.SmallNet, m.ServeCancelP, m.Duplex = 4, 0.7, 0.1, 0.25, 0.3, 0.1, 0
 	case "C11":
 		m.MaxRPCs, m.MetaP, m.CancelP, m.Misbehave, m.ForceSoftC = 6, 0.7, 0.35, 0.3, -1
 	case "C12":
@@ -530,6 +530,24 @@ func (g *e1gen) misbehave(r *RPCSpec) {
 	}
 	if len(r.HOps) > 0 && g.chance(0.6) {
 		r.HOps = r.HOps[:g.pick(len(r.HOps)+1)]
+	}
+	// a side that does not drain: some of its receives are skipped, the rest of
+	// its script (sends, return) goes on
+	skip := func(ops []Op, p float64) []Op {
+		var out []Op
+		for _, o := range ops {
+			if o.Kind == OpRecv && g.chance(p) {
+				continue
+			}
+			out = append(out, o)
+		}
+		return out
+	}
+	if !r.Duplex && g.chance(0.3) {
+		r.HOps = skip(r.HOps, 0.5)
+	}
+	if !r.Duplex && g.chance(0.15) {
+		r.COps = skip(r.COps, 0.5)
 	}
 	if g.chance(0.15) {
 		r.HOps = append(r.HOps, Op{Kind: OpWaitCtx})
